@@ -2,6 +2,7 @@ package props
 
 import (
 	"fmt"
+	"strings"
 	"sync"
 	"time"
 
@@ -14,7 +15,7 @@ import (
 
 // C04: Kill always ends the plugin process in bounded time, gracefully if possible.
 
-var c04Behaviours = []string{"prompt", "cleanup:0", "cleanup:100ms", "cleanup:500ms", "cleanup:1500ms", "ignore", "stopped", "crashed", "busy", "never-connected", "failed-handshake"}
+var c04Behaviours = []string{"prompt", "cleanup:0", "cleanup:100ms", "cleanup:500ms", "cleanup:1500ms", "ignore", "stopped", "crashed", "busy", "never-connected", "failed-handshake", "failed-handshake-more-output"}
 var c04Patterns = []string{"single", "twice", "concurrent3", "race-client", "cleanup-clients"}
 
 func init() {
@@ -33,14 +34,14 @@ func init() {
 						continue // not supported by go-plugin
 					}
 					for _, beh := range c04Behaviours {
-						if beh == "failed-handshake" && launch == "reattach" {
+						if strings.HasPrefix(beh, "failed-handshake") && launch == "reattach" {
 							continue
 						}
 						for _, pat := range c04Patterns {
-							if pat == "cleanup-clients" && (launch == "reattach" || beh == "failed-handshake") {
+							if pat == "cleanup-clients" && (launch == "reattach" || strings.HasPrefix(beh, "failed-handshake")) {
 								continue
 							}
-							if pat == "race-client" && beh == "failed-handshake" {
+							if pat == "race-client" && strings.HasPrefix(beh, "failed-handshake") {
 								continue
 							}
 							cells = append(cells, cp(conf, "launch", launch, "beh", beh, "pat", pat))
@@ -126,9 +127,14 @@ func runC04(r *h.Run) {
 				select {}
 			}
 		}
-		if beh == "failed-handshake" {
+		if strings.HasPrefix(beh, "failed-handshake") {
 			c.Path = "/bin/badhs-" + c.Name
-			r.InstallScript(c.Path, &h.Script{Steps: []h.ScriptStep{h.Out("1|1|unix\n")}})
+			steps := []h.ScriptStep{h.Out("1|1|unix\n")}
+			if beh == "failed-handshake-more-output" {
+				// e.g. a binary that is not a plugin and prints a usage text
+				steps = []h.ScriptStep{h.Out("usage: tool [flags]\n  -h  help\n  -v  version\n"), h.Err("tool: unknown invocation\n"), h.Out("more output later\n").After(500 * time.Millisecond)}
+			}
+			r.InstallScript(c.Path, &h.Script{Steps: steps})
 		} else {
 			r.InstallPlugin(&c)
 		}
@@ -150,7 +156,7 @@ func runC04(r *h.Run) {
 		if o.Hung {
 			return
 		}
-		if p.beh == "failed-handshake" {
+		if strings.HasPrefix(p.beh, "failed-handshake") {
 			if o.Err == nil {
 				r.Violate("setup", "bad handshake accepted", "")
 			}
@@ -287,7 +293,7 @@ func runC04(r *h.Run) {
 		if proc.State() != k.Reaped {
 			r.Violate("not-reaped", pctx, "plugin exited but was never waited for (zombie) 3s after Kill")
 		}
-		if p.beh != "failed-handshake" && !p.cl.Exited() {
+		if !p.cl.Exited() {
 			// Exited is set by the wait goroutine, which Kill waits for
 			time.Sleep(2 * time.Second)
 			if !p.cl.Exited() {
